@@ -40,7 +40,7 @@ class RunWorld:
 
     def exc(self, tag):
         if tag not in self.excs:
-            e = world.EXC_CLASSES[tag % 8](tag)
+            e = world.exc_class(tag)(tag)
             e.tag = tag
             self.excs[tag] = e
         return self.excs[tag]
